@@ -1,0 +1,8 @@
+//go:build verif
+
+// Contracts for the overlay database, read by /verif/gocv.
+package overlaydb
+
+//@ func (*OverlayDB).Error
+//@   trusted   -- returns the sticky error field
+//@   modifies nothing
